@@ -2755,19 +2755,135 @@ func rulePoll(p *Program, r *Reporter) {
 		return
 	}
 	run := a.vmRun
-	var sel *ssa.Select
-	for _, b := range run.Blocks {
-		for _, ins := range b.Instrs {
-			if s, ok := ins.(*ssa.Select); ok && !s.Blocking {
-				for _, st := range s.States {
-					if c, ok := st.Chan.(*ssa.Call); ok && c.Call.IsInvoke() && c.Call.Method.Name() == "Done" {
-						sel = s
+	findSel := func(f *ssa.Function) *ssa.Select {
+		var found *ssa.Select
+		for _, b := range f.Blocks {
+			for _, ins := range b.Instrs {
+				if s, ok := ins.(*ssa.Select); ok && !s.Blocking {
+					for _, st := range s.States {
+						if c, ok := st.Chan.(*ssa.Call); ok && c.Call.IsInvoke() && c.Call.Method.Name() == "Done" {
+							found = s
+						}
 					}
 				}
 			}
 		}
+		return found
 	}
-	if sel == nil {
+	// readyOf: the block a function goes to when the select found the context done
+	readyOf := func(s *ssa.Select) *ssa.BasicBlock {
+		for _, ref := range liveRefs(s) {
+			ex, ok := ref.(*ssa.Extract)
+			if !ok || ex.Index != 0 {
+				continue
+			}
+			for _, r2 := range liveRefs(ex) {
+				bo, ok := r2.(*ssa.BinOp)
+				if !ok || bo.Op != token.EQL {
+					continue
+				}
+				if n, ok := constInt(bo.Y); !ok || n != 0 {
+					continue
+				}
+				for _, r3 := range liveRefs(bo) {
+					if iff, ok := r3.(*ssa.If); ok {
+						return iff.Block().Succs[0]
+					}
+				}
+			}
+		}
+		return nil
+	}
+	sel := findSel(run)
+	// the instruction of the interpreter at which the context is polled: the
+	// select itself, or the call of a function of the machine that holds it and
+	// whose result says whether the context was done (`if vm.expired() {…}`,
+	// `if err := vm.checkContext(); err != nil {…}`)
+	var pollIns ssa.Instruction
+	var helperReady *ssa.BasicBlock // in the interpreter: where it goes when the helper said "done"
+	if sel != nil {
+		pollIns = sel
+	} else {
+		for _, b := range run.Blocks {
+			for _, ins := range b.Instrs {
+				c, ok := ins.(*ssa.Call)
+				if !ok || c.Call.StaticCallee() == nil || fnPkg(c.Call.StaticCallee()) == nil || fnPkg(c.Call.StaticCallee()).Pkg.Path() != Mod+"/vm" {
+					continue
+				}
+				h := c.Call.StaticCallee()
+				hs := findSel(h)
+				if hs == nil || h.Signature.Results().Len() != 1 {
+					continue
+				}
+				rb := readyOf(hs)
+				if rb == nil {
+					continue
+				}
+				// what the helper returns on the ready side and elsewhere
+				isBool := isBoolType(h.Signature.Results().At(0).Type())
+				isErr := isErrorType(h.Signature.Results().At(0).Type())
+				if !isBool && !isErr {
+					continue
+				}
+				good := true
+				for _, hb := range h.Blocks {
+					ret, ok := terminator(hb).(*ssa.Return)
+					if !ok {
+						continue
+					}
+					onReady := hb == rb || rb.Dominates(hb)
+					v := returnOperand(ret, 0)
+					switch {
+					case isBool:
+						k, ok := v.(*ssa.Const)
+						if !ok || k.Value == nil || k.Value.Kind() != constant.Bool || constant.BoolVal(k.Value) != onReady {
+							good = false
+						}
+					case isErr:
+						if isNilConst(v) == onReady {
+							good = false
+						}
+					}
+				}
+				if !good {
+					continue
+				}
+				// the branch on the helper's result
+				for _, ref := range liveRefs(c) {
+					switch x := ref.(type) {
+					case *ssa.If:
+						if isBool {
+							helperReady = x.Block().Succs[0]
+						}
+					case *ssa.UnOp:
+						if x.Op == token.NOT && isBool {
+							for _, r2 := range liveRefs(x) {
+								if iff, ok := r2.(*ssa.If); ok {
+									helperReady = iff.Block().Succs[1]
+								}
+							}
+						}
+					case *ssa.BinOp:
+						if isErr && (x.Op == token.NEQ || x.Op == token.EQL) && (isNilConst(x.X) || isNilConst(x.Y)) {
+							for _, r2 := range liveRefs(x) {
+								if iff, ok := r2.(*ssa.If); ok {
+									if x.Op == token.NEQ {
+										helperReady = iff.Block().Succs[0]
+									} else {
+										helperReady = iff.Block().Succs[1]
+									}
+								}
+							}
+						}
+					}
+				}
+				if helperReady != nil {
+					sel, pollIns = hs, c
+				}
+			}
+		}
+	}
+	if sel == nil || pollIns == nil {
 		r.Fail("non-blocking poll of the context", p.Pos(run.Pos()), "the interpreter has no non-blocking select on the context's Done channel: a deadline or cancellation cannot stop a running script")
 		return
 	}
@@ -2786,7 +2902,7 @@ func rulePoll(p *Program, r *Reporter) {
 		r.Undecided("dispatch point", "-", "not found")
 		return
 	}
-	r.Check(dominatesInstr(sel, dp), "the poll precedes every instruction", p.Pos(sel.Pos()), "poll block dominates the opcode read", "the context is not polled before an instruction is dispatched")
+	r.Check(dominatesInstr(pollIns, dp), "the poll precedes every instruction", p.Pos(sel.Pos()), "poll block dominates the opcode read", "the context is not polled before an instruction is dispatched")
 	// every back edge into the dispatch loop's header passes the poll
 	header := dp.Block()
 	for header != nil {
@@ -2796,7 +2912,7 @@ func rulePoll(p *Program, r *Reporter) {
 				isHeader = true
 			}
 		}
-		if isHeader && header.Dominates(sel.Block()) {
+		if isHeader && header.Dominates(pollIns.Block()) {
 			break
 		}
 		header = header.Idom()
@@ -2811,7 +2927,7 @@ func rulePoll(p *Program, r *Reporter) {
 		for _, s := range b.Succs {
 			if s == header && header.Dominates(b) {
 				nBack++
-				if !(sel.Block() == b || sel.Block().Dominates(b)) {
+				if !(pollIns.Block() == b || pollIns.Block().Dominates(b)) {
 					allPolled = false
 				}
 			}
@@ -2821,28 +2937,14 @@ func rulePoll(p *Program, r *Reporter) {
 	// the ready edge returns a non-nil error
 	readyOK := false
 	var readyBlock *ssa.BasicBlock
-	for _, ref := range liveRefs(sel) {
-		ex, ok := ref.(*ssa.Extract)
-		if !ok || ex.Index != 0 {
-			continue
-		}
-		for _, r2 := range liveRefs(ex) {
-			bo, ok := r2.(*ssa.BinOp)
-			if !ok || bo.Op != token.EQL {
-				continue
-			}
-			if n, ok := constInt(bo.Y); !ok || n != 0 {
-				continue
-			}
-			for _, r3 := range liveRefs(bo) {
-				if iff, ok := r3.(*ssa.If); ok {
-					tb := iff.Block().Succs[0]
-					readyBlock = tb
-					if ret, ok := terminator(tb).(*ssa.Return); ok && !isSuccessReturn(ret) {
-						readyOK = true
-					}
-				}
-			}
+	if helperReady != nil {
+		readyBlock = helperReady
+	} else {
+		readyBlock = readyOf(sel)
+	}
+	if readyBlock != nil {
+		if ret, ok := terminator(readyBlock).(*ssa.Return); ok && !isSuccessReturn(ret) {
+			readyOK = true
 		}
 	}
 	r.Check(readyOK, "an expired context ends the run with an error", p.Pos(sel.Pos()), "ready branch returns a non-nil error", "when the context is done the interpreter does not return a non-nil error")
@@ -3673,6 +3775,9 @@ func onPathViaHelper(f *ssa.Function, in map[*ssa.Function]bool) bool {
 						}
 					}
 				}
+			}
+			if !removed && defersUndoHandedBack(f, setField) {
+				removed = true
 			}
 			dominates := true
 			for _, b2 := range f.Blocks {
